@@ -1535,6 +1535,57 @@ def check_demangle(ctx):
     if n == 0:
         # e.g. typeid names used undemangled: nothing to check
         ctx.ok(R, DEMANGLE_UNIT, 'no call of abi::__cxa_demangle in the unit', DEMANGLE_UNIT, nontrivial=False)
+    check_demangle_state(ctx, tu)
+
+
+def check_demangle_state(ctx, tu):
+    R = 'R-C09-12'
+    ctx.describe(R, 'Any::toString() / a failed get<T>() may be called from several threads at once (the wrappers are value types): the '
+                    'functions of demangle.cpp keep no mutable static state that is touched without a lock')
+    nf = 0
+    for f in tu.functions.values():
+        if tu.fn_file(f) != DEMANGLE_UNIT or tu.body(f) is None:
+            continue
+        nf += 1
+        inst = f['q'].replace('rkcommon::', '')
+        statics = []
+        for n in tu.walk(tu.body(f)):
+            if n.get('kind') == 'VarDecl' and (n.get('storageClass') == 'static' or n.get('tls')):
+                qt = n.get('type', {}).get('qualType', '')
+                if re.match(r'^const\b', qt) or n.get('constexpr') or 'atomic' in qt or 'once_flag' in qt or 'mutex' in qt:
+                    continue
+                if n.get('tls'):
+                    continue
+                statics.append(n)
+        # namespace-scope variables of the unit written by the function
+        for n in tu.walk(tu.body(f)):
+            if n.get('kind') == 'DeclRefExpr':
+                d = tu.nodes.get(n.get('referencedDecl', {}).get('id'))
+                if d is not None and d.get('kind') == 'VarDecl' and tu.loc(d).startswith(DEMANGLE_UNIT) and d not in statics and \
+                        (tu.par(d) or {}).get('kind') in ('NamespaceDecl', 'TranslationUnitDecl'):
+                    qt = d.get('type', {}).get('qualType', '')
+                    if not (re.match(r'^const\b', qt) or d.get('constexpr') or 'atomic' in qt or 'mutex' in qt or 'once_flag' in qt or d.get('tls')):
+                        statics.append(d)
+        if not statics:
+            ctx.ok(R, inst, 'no mutable static state', tu.fn_loc(f))
+            continue
+        locked = any(n.get('kind') == 'VarDecl' and re.search(r'lock_guard|unique_lock|scoped_lock', n.get('type', {}).get('qualType', ''))
+                     for n in tu.walk(tu.body(f))) or \
+            any(n.get('kind') in ('CallExpr', 'CXXMemberCallExpr') and tu.sd(n).get('q', '').split('::')[-1] in ('lock', 'call_once')
+                for n in tu.walk(tu.body(f)))
+        for d in statics:
+            if locked:
+                ctx.ok(R, '%s: static `%s`' % (inst, d.get('name')), 'not decided here (the function takes a lock; which accesses it covers is not analysed)',
+                       tu.loc(d), nontrivial=False)
+            else:
+                ctx.violation(R, '%s: static `%s`' % (inst, d.get('name')),
+                              '`%s` (%s) has static storage duration, is read and written by every call and no lock is taken: two threads '
+                              'printing an Any (toString) or failing a get<T>() at the same time race on it (rehash / insert while another '
+                              'thread iterates the buckets)' % (d.get('name'), d.get('type', {}).get('qualType', '')[:80]),
+                              tu.loc(d) if tu.loc(d) != '?' else tu.fn_loc(f),
+                              key='%s|%s|%s|unsynchronised-static:%s' % (R, DEMANGLE_UNIT, inst, d.get('name')))
+    if nf == 0:
+        ctx.broken('%s: no function definition found in %s' % (R, DEMANGLE_UNIT))
 
 
 # ============================================================================================
